@@ -129,6 +129,9 @@ void exec_op(int task, int idx, TaskCtx& ctx) {
                  " but " + c.s("expect") + " in the reference build (" + o.summary + ")");
   }
   std::lock_guard<std::mutex> lk(sh.mu);
+  if (sh.stats)
+    for (auto& fc : o.foreign)
+      sh.stats->hit("observed_other_property." + fc);
   sh.outcomes[task][idx] = o;
   std::string line = "t" + std::to_string(task) + " #" + std::to_string(idx) + " " + c.op() + " " + (o.skipped ? "skipped" : o.summary) + " d=" + hex64(o.digest) +
                      (o.clause.empty() ? "" : " !! " + o.clause);
@@ -528,7 +531,12 @@ Plan shrink_plan(const Plan& in, const std::string& clause, int* reruns) {
       for (const char* k : shrinkable) {
         if (!c.has(k) || *reruns >= BUDGET)
           continue;
-        int64_t v = c.i(k);
+        int64_t v;
+        try {
+          v = c.i(k);
+        } catch (...) {
+          continue;
+        }
         for (int64_t cand : {(int64_t)0, v / 2, v - 1}) {
           if (cand < 0 || cand >= v || *reruns >= BUDGET)
             continue;
